@@ -6,7 +6,7 @@ import gen
 from common import realize, circ_from_json, err_name
 from props.evalcommon import py_exec
 
-RULE = ('random circuits built through the public API over all 19 gate types, n-ary arity 2..5, repeated '
+RULE = ('random circuits built through the public API over all 19 gate types, n-ary arity 2..5 (directed: one wide gate of 6..12 operands per n-ary type), repeated '
         'operands, twin gates (same type, same operands in another order), constants with operands, outputs that are inputs/repeated, unused inputs, reordered inputs '
         '(set_inputs) x output selections (None, subsets, repeats, empty); CNF clause lists and the literal '
         'map compared exactly; non-trivial = >=1 non-input gate reachable from a selected output; distinct = '
@@ -99,13 +99,35 @@ def directed_twins():
     return out
 
 
+def directed_wide(rng):
+    """one wide gate (6..12 operands over three inputs, so operands repeat) per n-ary type, alone and under a NOT"""
+    out = []
+    for t in gen.SYM_NARY:
+        for ar in (6, 7, 8, 9, 11, 12):
+            ops = [rng.choice(['a', 'b', 'c']) for _ in range(ar)]
+            if ar % 2:
+                ops[:3] = ['a', 'b', 'c']
+            gates = [['a', 'INPUT', []], ['b', 'INPUT', []], ['c', 'INPUT', []], ['w', t, ops]]
+            outs = ['w']
+            if rng.random() < 0.5:
+                gates.append(['nw', 'NOT', ['w']])
+                outs = ['nw']
+            out.append({'gates': gates, 'inputs': ['a', 'b', 'c'], 'outputs': outs, 'blocks': []})
+    # distinct operands too: seven and nine inputs under one parity gate
+    for t in ('XOR', 'NXOR'):
+        for ar in (7, 9):
+            ins = ['x%d' % i for i in range(ar)]
+            out.append({'gates': [[i, 'INPUT', []] for i in ins] + [['w', t, list(ins)]], 'inputs': ins, 'outputs': ['w'], 'blocks': []})
+    return out
+
+
 def search(ctx):
     rng = ctx.rng('search')
-    directed = directed_twins()
+    directed = directed_twins() + directed_wide(ctx.rng('search-wide'))
     for k in range(-len(directed), ctx.scale(150, 4000)):
         if k < 0:
             j, info = directed[k], {'n_gates': 5, 'n_inputs': 2, 'twin': 1}
-            ctx.count('directed_twins')
+            ctx.count('directed_twins_and_wide_gates')
         else:
             j, info = gen.gen_circuit(rng, max_inputs=ctx.scale(4, 6), max_gates=ctx.scale(10, 20), max_arity=5,
                                       p_twin=0.2 if k % 2 == 0 else 0.0,
